@@ -320,8 +320,12 @@ func (c *conn) closeChannels() {
 	c.channelsClosed.Store(true)
 	vtr("cl.range", bin.Bin128{}, 0, 0)
 
-	c.channels.Range(func(_ bin.Bin128, ch internalChannel) bool {
-		ch.free()
+	c.channels.Range(func(id bin.Bin128, _ internalChannel) bool {
+		// Whoever removes the channel from the map frees it, exactly once:
+		// the send and receive loops may be handling its close message concurrently.
+		if ch, ok := c.channels.Delete(id); ok {
+			ch.free()
+		}
 		return true
 	})
 	vtr("cl.done", bin.Bin128{}, 0, 0)
